@@ -21,6 +21,8 @@ EXTENDS GraphTheory
 CONSTANTS MaxOps, OracleN,         \* behaviours of at most MaxOps operations; oracle cross-check up to OracleN vertices
           Starts,                  \* which of "k4" (planar), "k5", "k33" a behaviour may start from
           GlueK5,                  \* whether a K5 block may be glued on (turns a planar graph into a non-planar one)
+          CrossEdge,               \* whether an edge may be added to a TRIANGULATION (m = 3n - 6 + 1: non-planar by Euler's bound, the
+                                   \* Kuratowski subgraph is wherever the triangulation puts it, not near the vertices added last)
           Randomised               \* TRUE for simulation: every class of operation offers ONE randomly parameterised successor, so that
                                    \* TLC's uniform choice among successors is uniform over the classes (long, balanced behaviours);
                                    \* FALSE for exhaustive exploration: every parameter value is a successor
@@ -42,6 +44,21 @@ Stellate(f) == /\ Room /\ kind = "planar" /\ phase = 1 /\ f \in faces
                /\ G' = AddVertex(G, f)
                /\ faces' = (faces \ {f}) \cup { (f \ {x}) \cup {G.n} : x \in f }
                /\ hist' = Append(hist, Op("addvertex", 0, 0, SortedSeq(f))) /\ UNCHANGED <<kind, phase>>
+(* diagonal flip of a triangulation of the sphere: the edge ab lies on exactly two faces abc, abd; if cd is not yet an edge, replacing ab
+   by cd gives another triangulation (every triangulation is reachable by flips: not only the stacked ones, which always keep vertices of
+   degree 3).  Two edit operations in hist. *)
+Thirds(e)    == { Min(f \ e) : f \in { g \in faces : e \subseteq g } }
+Flippable    == { e \in G.E : Cardinality({ g \in faces : e \subseteq g }) = 2 /\ Cardinality(Thirds(e)) = 2 /\ Thirds(e) \notin G.E }
+Flip(e)      == /\ Len(hist) + 2 <= MaxOps /\ kind = "planar" /\ phase = 1 /\ e \in Flippable
+                /\ LET d == Thirds(e) IN
+                   /\ G' = [n |-> G.n, E |-> (G.E \ {e}) \cup {d}]
+                   /\ faces' = { f \in faces : ~(e \subseteq f) } \cup { d \cup {x} : x \in e }
+                   /\ hist' = hist \o << Op("removeedge", Min(e), Max(e), <<>>), Op("addedge", Min(d), Max(d), <<>>) >>
+                /\ UNCHANGED <<kind, phase>>
+(* one more edge on a triangulation: 3n - 5 edges, so non-planar whatever the edge is *)
+Cross(e)     == /\ Room /\ CrossEdge /\ kind = "planar" /\ phase = 1 /\ e \in AllPairs(G.n) \ G.E
+                /\ G' = AddEdge(G, Min(e), Max(e)) /\ hist' = Append(hist, Op("addedge", Min(e), Max(e), <<>>))
+                /\ kind' = "nonplanar" /\ phase' = 2 /\ UNCHANGED faces
 EndPhase1   == Room /\ phase = 1 /\ phase' = 2 /\ UNCHANGED <<G, faces, kind, hist>>
 DelEdge(e)  == /\ Room /\ kind = "planar" /\ phase = 2 /\ e \in G.E
                /\ G' = RemoveEdge(G, Min(e), Max(e)) /\ hist' = Append(hist, Op("removeedge", Min(e), Max(e), <<>>)) /\ UNCHANGED <<faces, kind, phase>>
@@ -77,6 +94,8 @@ Window == { v \in Verts(G.n) : v < 2 \/ v >= G.n - 3 }
 Pick(S) == IF Randomised THEN (IF S = {} THEN {} ELSE { RandomElement(S) }) ELSE S
 Often(k) == ~Randomised \/ RandomElement(1..k) = 1            \* in simulation: take this class only once in k times it is offered
 Next == \/ \E f \in Pick(faces) : Stellate(f)
+        \/ \E e \in Pick(Flippable) : Flip(e)
+        \/ Often(12) /\ \E e \in Pick(AllPairs(G.n) \ G.E) : Cross(e)
         \/ Often(10) /\ EndPhase1
         \/ Often(3) /\ \E e \in Pick(G.E) : DelEdge(e)
         \/ \E e \in Pick(G.E) : Subdivide(e)
